@@ -1400,6 +1400,29 @@ fn format_hanging_expression_(
 
             // If the context is for a prefix, we should always keep the parentheses, as they are always required
             if use_internal_expression && !keep_parentheses {
+                // Get the leading and trailing comments from contained span and append them onto the expression
+                let (start_parens, end_parens) = contained.tokens();
+                let leading_comments = start_parens
+                    .leading_trivia()
+                    .filter(|token| trivia_util::trivia_is_comment(token))
+                    .flat_map(|x| {
+                        vec![
+                            create_indent_trivia(ctx, lhs_shape),
+                            x.to_owned(),
+                            create_newline_trivia(ctx),
+                        ]
+                    })
+                    .collect();
+
+                let trailing_comments = end_parens
+                    .trailing_trivia()
+                    .filter(|token| trivia_util::trivia_is_comment(token))
+                    .flat_map(|x| {
+                        // Prepend a single space beforehand
+                        vec![Token::new(TokenType::spaces(1)), x.to_owned()]
+                    })
+                    .collect();
+
                 format_hanging_expression_(
                     ctx,
                     expression,
@@ -1407,6 +1430,8 @@ fn format_hanging_expression_(
                     expression_context,
                     lhs_range,
                 )
+                .update_leading_trivia(FormatTriviaType::Append(leading_comments))
+                .update_trailing_trivia(FormatTriviaType::Append(trailing_comments))
             } else {
                 let contained = format_contained_span(ctx, contained, lhs_shape);
 
